@@ -7,8 +7,8 @@
    i.e. the query of every case reads back as exactly the values the specification Spec/Expand.v
    expects, or the run fails with a Sigma error when the specification demands a failure. It is false
    without the premise (C17_linking_refuted). What is proved: the expansion step itself
-   (C17_cross_product, C17_replace_error, C17_handled_gone, and C17_step_spec: model step = specification
-   step for value-list and wildcard items), the rendering guards and the read-back
+   (C17_cross_product, C17_replace_error, C17_handled_gone, and C17_step_spec / C17_pipeline_spec: model = specification
+   for value-list and wildcard items and whole pipelines of them), the rendering guards and the read-back
    of every emitted literal (C17_no_raw_string, C17_no_raw_regex), and their composition over a whole
    run (C17_run_ok_resolved, C17_unresolved_fails). Not proved: agreement of the one-pass placeholder
    scanner ph_go with the look-ahead reader xread, and of read_query with the OR/AND joiner. Both are
@@ -63,6 +63,20 @@ Theorem C17_step_spec :
     end.
 Proof. exact base_step_spec. Qed.
 Print Assumptions C17_step_spec.
+
+(* ... and so is every pipeline of such items, of any length and in any order, on any list of string,
+   keyword and (compiled) regular-expression values: the model's values after the pipeline are the
+   specification's values, in the same order; it fails exactly when the specification demands it *)
+Theorem C17_pipeline_spec :
+  forall vs field ts, Forall (fun t => item_ok t = true /\ base_kind t) ts ->
+    forall l, Forall good l ->
+    match apply_pipeline vs ts l with
+    | Ok rs => s_pipeline (tabs_of vs) field (map to_sitem ts) (map sv l) = Some (map sv rs)
+    | SigmaErr _ => s_pipeline (tabs_of vs) field (map to_sitem ts) (map sv l) = None
+    | Crash _ => False
+    end.
+Proof. exact pipeline_spec. Qed.
+Print Assumptions C17_pipeline_spec.
 
 (* strings and keywords: a literal is only emitted for a placeholder-free value, and under a well-formed
    escaping configuration it reads back as exactly the value's characters and wildcards; so every
